@@ -305,7 +305,7 @@ class SingleDeletionSweep(Contract):
                                 always.append({"kind": "pg-attr", "entity": name, "group": gi, "attr": k})
                     t = node["Type"]
                     for k in t.attrs:
-                        if k not in ("ID", "Name", "Primitive type"):
+                        if k not in ("ID", "Primitive type"):  # a type's Name is optional (the classes know their default names)
                             targets.append({"kind": "type-attr", "entity": name, "attr": k})
                     for sub in ("Color map", "Value map"):
                         if sub in t:
